@@ -17,13 +17,19 @@
      C14_nl_in_brackets two token lists of the expression fragment (no fn/pu/if/case) that differ only by comments
                         anywhere and by newlines inside ( ) [ ] { } at any depth get the same result from
                         `expression` (same tree, or both rejected) -- a simulation through every reachable step;
-   What is NOT proved and stays a visible Prop (never assumed): C14_loop_do_unconditional,
-   C14_nl_in_brackets_statement_level, C14_ws_insert_whole_input.  The trailing-expression = ret sugar is a statement
+     C14_statement_pre_insensitive / C14_loop_do_unconditional / C14_loop_do_converse
+                        (Parse/PreSim.v) a statement's tree and end do not depend on the tokens behind the cursor -
+                        a simulation through every step function, using the progress facts of ParserTotal.v to keep
+                        Context::prev inside the statement's own tokens - hence `loop do B` parses if and only if
+                        `loop true do B` does, to the same statement, ending in the same place.
+   What is NOT proved and stays a visible Prop (never assumed): C14_nl_in_brackets_statement_settled (the
+   corrected form of C14_nl_in_brackets_statement_level, which is REFUTED below as it was stated: same fuel on both
+   sides), C14_ws_insert_whole_input.  The trailing-expression = ret sugar is a statement
    about emitted code, not about parsing; it is covered by the byte-level oracle of tools/props/c14.py. *)
 From Coq Require Import String List NArith Bool Arith.
 From Sylt Require Import Lex.Regex Lex.Logos Lex.LayoutProofs Gen.GenTokens
   Syntax.Ast Syntax.Tok Parse.PrecTable Parse.Parser Parse.ParserProofs Parse.OpTree Parse.ExprRoundTrip
-  Parse.Sugar Parse.Layout Parse.LayoutSim Gen.GenPrec.
+  Parse.Sugar Parse.Layout Parse.LayoutSim Parse.ParserTotal Parse.PreSim Gen.GenPrec.
 Import ListNotations.
 
 Definition gen_ptab : ptab := interp GenPrec.table.
@@ -127,11 +133,67 @@ Theorem C14_ws_token : forall a w w' rest rest', a <> [] ->
   next_raw gen_table (a ++ w :: rest) = next_raw gen_table (a ++ w' :: rest').
 Proof. exact (ws_insert_token gen_table). Qed.
 
+(* ---- the statement parser does not look behind the cursor; `loop do` == `loop true do` ---- *)
+Theorem C14_total_ok : total_ok gen_ptab.
+Proof. apply total_ok_interp. vm_compute. reflexivity. Qed.
+
+Theorem C14_statement_pre_insensitive : forall f c c' s c3, same_modulo_pre c c' ->
+  go gen_ptab f (QStmt c) = Ok (RS s c3) ->
+  exists c3', go gen_ptab f (QStmt c') = Ok (RS s c3') /\ same_modulo_pre c3 c3' /\ prev_smp c3 c3'.
+Proof. exact (statement_pre_insensitive gen_ptab C14_total_ok). Qed.
+
+Theorem C14_loop_do_unconditional : forall p ts ov b f s c,
+  go gen_ptab f (QStmt (mkctx p (TK KLoop :: TK KDo :: ts) ov b)) = Ok (RS s c) ->
+  exists g c', go gen_ptab g (QStmt (mkctx p (TK KLoop :: TBool true :: TK KDo :: ts) ov b)) = Ok (RS s c')
+               /\ same_modulo_pre c c'.
+Proof. exact (loop_do gen_ptab C14_total_ok C14_do_not_infix). Qed.
+
+Theorem C14_loop_do_converse : forall p ts ov b f s c,
+  go gen_ptab f (QStmt (mkctx p (TK KLoop :: TBool true :: TK KDo :: ts) ov b)) = Ok (RS s c) ->
+  exists g c', go gen_ptab g (QStmt (mkctx p (TK KLoop :: TK KDo :: ts) ov b)) = Ok (RS s c')
+               /\ same_modulo_pre c c'.
+Proof. exact (loop_do_converse gen_ptab C14_total_ok C14_do_not_infix). Qed.
+
+(* ---- C14_nl_in_brackets_statement_level, as it was stated, is false ---- *)
+(* do <nl> x = ( 1 2 <nl> 3 <nl> ... <nl> 14 ) <nl> end <nl>   against the same without the inner line breaks:
+   `1 2` is a syntax error; the first input resumes at each inner line break (one more round of the block loop
+   per line), the second at the end of the line.  With fuel 8 the second has reported its error while the
+   first is still out of fuel. *)
+Definition refute_mid (with_nl : bool) : list tok :=
+  flat_map (fun n => if with_nl then [TK KNewline; TInt (N.of_nat n)] else [TInt (N.of_nat n)]) (seq 3 12).
+Definition refute_ts (with_nl : bool) : list tok :=
+  [TK KDo; TK KNewline; TIdent (ascii_name "x"); TK KEqual; TK KLeftParen; TInt 1; TInt 2] ++ refute_mid with_nl
+  ++ [TK KRightParen; TK KNewline; TK KEnd; TK KNewline].
+
+Theorem C14_nl_in_brackets_statement_level_same_fuel_refuted : ~ nl_in_brackets_statement_level gen_ptab.
+Proof.
+  intros H. specialize (H (refute_ts true) (refute_ts false) 8).
+  assert (D : insignificant_diff (refute_ts true) (refute_ts false)).
+  { unfold insignificant_diff. vm_compute.
+    repeat first [ apply E_nil
+                 | apply E_tok; [reflexivity|reflexivity|reflexivity|]
+                 | apply E_open; [reflexivity|]
+                 | apply E_close; [reflexivity|]
+                 | apply E_close0; [reflexivity|]
+                 | apply E_trl; [reflexivity|] ]. }
+  assert (F1 : frag (refute_ts true)) by (vm_compute; repeat constructor).
+  assert (F2 : frag (refute_ts false)) by (vm_compute; repeat constructor).
+  specialize (H D F1 F2 I I). vm_compute in H. exact H.
+Qed.
+
 (* ---- stated, not proved ---- *)
-Definition C14_loop_do_unconditional : Prop := loop_do_statement gen_ptab.
-Definition C14_statement_pre_insensitive : Prop := statement_pre_insensitive_statement gen_ptab.
-Definition C14_nl_in_brackets_statement_level : Prop := nl_in_brackets_statement_level gen_ptab.
+Definition C14_nl_in_brackets_statement_level : Prop := nl_in_brackets_statement_level gen_ptab.   (* refuted above *)
+Definition C14_nl_in_brackets_statement_settled : Prop := nl_in_brackets_statement_settled_statement gen_ptab.
 Definition C14_ws_insert_whole_input : Prop := ws_insert_statement gen_table.
+
+(* what totality gives towards the corrected statement: with enough fuel both runs end in a tree or in errors;
+   what is missing is that one accepts exactly when the other does, with equal trees *)
+Theorem C14_nl_in_brackets_statement_settled_partial : forall ts ts' f,
+  parse_fuel ts <= f -> parse_fuel ts' <= f ->
+  settled (parse_statement gen_ptab f ts) /\ settled (parse_statement gen_ptab f ts').
+Proof.
+  intros ts ts' f H1 H2. split; apply parse_statement_total; try assumption; exact C14_total_ok.
+Qed.
 
 (* ---- non-vacuity ---- *)
 Definition nm (s : string) : name := ascii_name s.
@@ -237,6 +299,12 @@ Print Assumptions C14_paren.
 Print Assumptions C14_loop_do_step.
 Print Assumptions C14_loop_true_do_step.
 Print Assumptions C14_loop_do_conditional.
+Print Assumptions C14_total_ok.
+Print Assumptions C14_statement_pre_insensitive.
+Print Assumptions C14_loop_do_unconditional.
+Print Assumptions C14_loop_do_converse.
+Print Assumptions C14_nl_in_brackets_statement_level_same_fuel_refuted.
+Print Assumptions C14_nl_in_brackets_statement_settled_partial.
 Print Assumptions C14_layout_token.
 Print Assumptions C14_layout_skip.
 Print Assumptions C14_layout_lookahead.
